@@ -188,6 +188,71 @@ func groupC17(n int) {
 	for k := 0; k < n; k++ {
 		rep(uint32(randU64(g)))
 	}
+	// isValidLowEntropyRotation: every int32 around the enum's range, then random
+	validRot := func(rot int32) bool {
+		var ok bool
+		emit("isValidLowEntropyRotation", []string{i(int64(rot))}, func() string { ok = protocol.VerifLEValidRotation(rot); return b2s(ok) })
+		want := rot == 0 || (rot >= 1 && rot <= 15) || (rot >= 16 && rot <= 240 && rot%16 == 0) // docs/protocol.md: 0, right 1..15, left 16*k
+		if ok != want {
+			r.Fail("valid-rotation-differs-from-document", fmt.Sprintf("isValidLowEntropyRotation(%d) = %v", rot, ok), map[string]string{"func": "isValidLowEntropyRotation", "rotation": i(int64(rot))})
+		}
+		return ok
+	}
+	var valid []int32
+	for rot := int32(-300); rot <= 300; rot++ {
+		if validRot(rot) {
+			valid = append(valid, rot)
+		}
+	}
+	for _, rot := range []int32{math.MinInt32, math.MinInt32 + 1, math.MaxInt32, math.MaxInt32 - 15, 1 << 16, 1<<16 + 16, -16, -240} {
+		validRot(rot)
+	}
+	for k := 0; k < n/4; k++ {
+		validRot(int32(g.U64()))
+	}
+	// rotateLowEntropyMask has no export of its own: lowEntropyChunkMask returns exactly it for a valid rotation and an
+	// index >= 0 (the only way the codec calls it)
+	rotate := func(m uint64, rot int32, idx int64) {
+		emit("rotateLowEntropyMask", []string{u(m), i(int64(rot)), i(idx)}, func() string {
+			v, err := protocol.VerifLEChunkMask(m, rot, int(idx))
+			if err != nil {
+				return "ERR"
+			}
+			return u(v)
+		})
+		r.Distinct(fmt.Sprintf("rot/%d/%d", rot, idx%64))
+	}
+	for _, rot := range valid {
+		for _, idx := range []int64{0, 1, 2, 3, 31, 32, 63, 64, 65, 127, 128, 8190, 1 << 31, 1<<62 + 5, math.MaxInt64} {
+			rotate(u64Boundary[int(uint64(idx+int64(rot))%uint64(len(u64Boundary)))], rot, idx)
+			rotate(g.U64(), rot, idx)
+		}
+	}
+	for k := 0; k < n && len(valid) > 0; k++ {
+		idx := int64(g.Intn(9000))
+		if g.Intn(8) == 0 {
+			idx = int64(g.U64() >> 1)
+		}
+		rotate(randU64(g), valid[g.Intn(len(valid))], idx)
+	}
+}
+
+// protocol type predicates: every byte (complete)
+func groupC09() {
+	for p := 0; p < 256; p++ {
+		s, d, a, da, le := protocol.VerifC09Classify(byte(p))
+		ps := []string{fmt.Sprint(p)}
+		emit("isSessionProtocol", ps, func() string { return b2s(s) })
+		emit("isDataProtocol", ps, func() string { return b2s(d) })
+		emit("isAckProtocol", ps, func() string { return b2s(a) })
+		emit("isDataAckProtocol", ps, func() string { return b2s(da) })
+		emit("isLowEntropyProtocol", ps, func() string { return b2s(le) })
+		r.Distinct(fmt.Sprintf("proto/%v%v%v%v%v", s, d, a, da, le))
+		// docs/protocol.md: 2..5 session, 6/7 data, 8/9 ack, 10/11 low-entropy data
+		if s != (p >= 2 && p <= 5) || d != (p == 6 || p == 7 || p == 10 || p == 11) || a != (p == 8 || p == 9) || da != (p >= 6 && p <= 11) || le != (p == 10 || p == 11) {
+			r.Fail("protocol-predicates-differ-from-document", fmt.Sprintf("protocol %d classified session=%v data=%v ack=%v dataAck=%v lowEntropy=%v", p, s, d, a, da, le), map[string]string{"func": "isDataAckProtocol", "protocol": fmt.Sprint(p)})
+		}
+	}
 }
 
 func groupC14(n int) {
@@ -303,6 +368,9 @@ func main() {
 	}
 	if *group == "c14" || *group == "all" {
 		groupC14(n)
+	}
+	if *group == "c09" || *group == "all" {
+		groupC09()
 	}
 	if r.Rep.Notes == nil {
 		r.Rep.Notes = map[string]string{}
